@@ -14,8 +14,10 @@ D = "pyrtma.data_logger.data_set:"
 
 
 def inv_session_text(n):
-    # fixed for the two-operation writer; for other lengths the invariant below is instantiated with "the last pc"
-    return ("implies(p == 1, a and not b) and implies(a and b, p == 2) and implies(p == 2, a and b and not d) and implies(not a, not d and p == 0) and 0 <= p and p <= 2")
+    # writer block <write pass; Event operation; Event operation>.  pc: 0 waiting, 1 woken / inside the write pass, 2 pass done (first operation pending),
+    # 3 first operation done (second pending)
+    return ("implies(p == 1 or p == 2, a and not b) and implies(a and b, p == 3) and implies(p == 2 or p == 3, a and not d) and implies(p == 3, b) and "
+            "implies(not a, not d and p == 0) and 0 <= p and p <= 3")
 
 
 def install(R: Registry):
@@ -24,7 +26,7 @@ def install(R: Registry):
         ops, _ = rgcheck.writer_ops(repo, "write")
     except rgcheck.Shape as ex:
         R.shape_error = str(ex)
-        ops = [("write_finished", "set"), ("write_to_disk", "clear")]
+        ops = [("data",), ("write_finished", "set"), ("write_to_disk", "clear")]
     R.writer_ops = ops
     wstar, wquiet, _ = rgcheck.closure_spec(ops)
     R.define("Wstar", "a0: Bool, b0: Bool, p0: Int, d0: Bool, a1: Bool, b1: Bool, p1: Int, d1: Bool", wstar,
@@ -34,7 +36,7 @@ def install(R: Registry):
     R.define("INVS", "a: Bool, b: Bool, p: Int, d: Bool", inv_session_text(len(ops)),
              "protocol invariant while recording: the writer is inside its pass only with write_to_disk set and write_finished clear; both flags set means the pass is over; "
              "write_to_disk clear means the writer is idle and nothing staged is unwritten")
-    R.define("INVW", "a: Bool, b: Bool, p: Int, d: Bool", "implies(p == 1, a and not b) and implies(a and b, p == 2) and implies(p == 2, not d) and implies(not a, not d and p != 1) and 0 <= p and p <= 2",
+    R.define("INVW", "a: Bool, b: Bool, p: Int, d: Bool", "implies(p == 1 or p == 2, a and not b) and implies(a and b, p == 3) and implies(p == 2 or p == 3, not d) and implies(not a, not d and p != 1 and p != 2) and 0 <= p and p <= 3",
              "weaker invariant that also holds after stop(): the writer may still owe its last Event operation")
 
     R.declare_class("Event", external=True, fields={}, ghost=dict(flag="Bool"))
